@@ -33,6 +33,9 @@ func (fe *BaseFieldElement) UnmarshalCBOR(data []byte) error {
 	if err != nil {
 		return errs.Wrap(err).WithMessage("failed to unmarshal base field element")
 	}
+	if dto == nil {
+		return errs.Wrap(serde.ErrNull).WithMessage("failed to unmarshal base field element")
+	}
 
 	bfe, err := NewBaseField().FromBytes(dto.BaseFieldBytes)
 	if err != nil {
@@ -58,6 +61,9 @@ func (fe *Scalar) UnmarshalCBOR(data []byte) error {
 	if err != nil {
 		return errs.Wrap(err).WithMessage("failed to unmarshal scalar")
 	}
+	if dto == nil {
+		return errs.Wrap(serde.ErrNull).WithMessage("failed to unmarshal scalar")
+	}
 
 	s, err := NewScalarField().FromBytes(dto.ScalarBytes)
 	if err != nil {
@@ -82,6 +88,9 @@ func (p *Point) UnmarshalCBOR(data []byte) error {
 	dto, err := serde.UnmarshalCBOR[*pointDTO](data)
 	if err != nil {
 		return errs.Wrap(err).WithMessage("failed to unmarshal point")
+	}
+	if dto == nil {
+		return errs.Wrap(serde.ErrNull).WithMessage("failed to unmarshal point")
 	}
 
 	pp, err := NewCurve().FromCompressed(dto.AffineCompressedBytes)
